@@ -291,6 +291,9 @@ async fn clean_connections(
         }
     });
 
+    #[cfg(aquatic_verif)]
+    aquatic_common::verif::count_per_thread("ws.connections_cleaned");
+
     #[cfg(feature = "metrics")]
     {
         ::log::info!(
